@@ -18,6 +18,8 @@ import (
 	"go/token"
 	"os"
 	"path/filepath"
+	"sort"
+	"strconv"
 	"strings"
 )
 
@@ -137,7 +139,25 @@ func main() {
 		}
 		for name, pkg := range pkgs {
 			n := 0
+			lits := map[string]bool{}
 			for path, f := range pkg.Files {
+				// the string and character literals of the package (what its code compares input with): a dictionary
+				// for the input generators
+				ast.Inspect(f, func(node ast.Node) bool {
+					if _, ok := node.(*ast.ImportSpec); ok {
+						return false
+					}
+					if bl, ok := node.(*ast.BasicLit); ok && (bl.Kind == token.STRING || bl.Kind == token.CHAR) {
+						if bl.Kind == token.CHAR {
+							if r, _, _, err := strconv.UnquoteChar(strings.Trim(bl.Value, "'"), '\''); err == nil && r < 256 {
+								lits[string([]byte{byte(r)})] = true
+							}
+						} else if s, err := strconv.Unquote(bl.Value); err == nil && len(s) > 0 && len(s) <= 16 && !strings.Contains(s, "%") {
+							lits[s] = true
+						}
+					}
+					return true
+				})
 				before := n
 				for _, d := range f.Decls {
 					fd, ok := d.(*ast.FuncDecl)
@@ -170,7 +190,16 @@ func main() {
 					os.Exit(1)
 				}
 			}
-			hook := fmt.Sprintf("//go:build verif\n\npackage %s\n\n// VerifAutoYield is called at the scheduling points inserted by the verification build (nil = pass through).\nvar VerifAutoYield func(point string, obj any)\n\nfunc verifAutoYield(point string, obj any) {\n\tif f := VerifAutoYield; f != nil {\n\t\tf(point, obj)\n\t}\n}\n", name)
+			var ls []string
+			for l := range lits {
+				ls = append(ls, l)
+			}
+			sort.Strings(ls)
+			var lb strings.Builder
+			for _, l := range ls {
+				fmt.Fprintf(&lb, "\t%q,\n", l)
+			}
+			hook := fmt.Sprintf("//go:build verif\n\npackage %s\n\n// VerifAutoYield is called at the scheduling points inserted by the verification build (nil = pass through).\nvar VerifAutoYield func(point string, obj any)\n\nfunc verifAutoYield(point string, obj any) {\n\tif f := VerifAutoYield; f != nil {\n\t\tf(point, obj)\n\t}\n}\n\n// VerifLiterals: the short string and character literals of this package's sources.\nvar VerifLiterals = []string{\n%s}\n", name, lb.String())
 			if err := os.WriteFile(filepath.Join(dir, "zz_verif_auto.go"), []byte(hook), 0o644); err != nil {
 				fmt.Fprintln(os.Stderr, err)
 				os.Exit(1)
